@@ -157,6 +157,8 @@ inductive BrWait where
   | specChange         -- batch Ready and partitioned: the Rollout raises the partition, a generation change
   | workloadChange     -- the workload controller has not observed the last write: a workload status change
   | rollbackSignal     -- rollback in batches: the annotation on the BatchRelease or the workload's revisions change
+  | superseded         -- the workload's pod template is no longer the revision being released: the executor stops on every
+                       -- round until its owner (the Rollout controller) deletes / rewrites the BatchRelease, or the template changes again
   deriving Repr, DecidableEq
 
 open RV.Executor in
@@ -164,6 +166,7 @@ def brAwaits (br : BR) (wl : Option Workload) : Option BrWait :=
   let ns := initializedStatus br.status
   let ev := (syncInfo br ns wl).1
   if br.status.phase = .completed then (if br.deleting ∧ br.hasFinalizer then none else some .completed)
+  else if ev = .podTemplateChanged ∧ br.status.phase = .progressing then some .superseded
   else if ev = .stillReconciling then some .workloadChange
   else if (ev = .rollbackInBatch ∨ br.rollbackAnno) ∧ br.status.noNeedUpdate.isNone ∧ br.status.phase = .progressing then some .rollbackSignal
   else if br.status.phase = .progressing ∧ br.status.batchState = .ready ∧ isPartitioned br then some .specChange
@@ -174,10 +177,11 @@ def BrWait.awaited : BrWait → List AEvent
   | .specChange => [.brSpecUpdated]
   | .workloadChange => [.wlStatusUpdated]
   | .rollbackSignal => [.brSpecUpdated, .wlStatusUpdated, .wlSpecUpdated]
+  | .superseded => [.brDeleteRequested, .brSpecUpdated, .wlSpecUpdated, .wlStatusUpdated]
 
 def BrWait.external : BrWait → Bool
   | .completed | .workloadChange => true
-  | .specChange | .rollbackSignal => false
+  | .specChange | .rollbackSignal | .superseded => false
 
 open RV.RolloutSM in
 /-- **the per-step oracle (Rollout)**: a reconcile that is not woken again — no requeue, no error (rate-limited retry), no event of
